@@ -92,6 +92,12 @@ CHECKS["C08"] = dict(
   note="Package level (byte-level parsing of the replies is C02/C06/C07, composed by assumption). Trusted: symgo executor, z3, crypto stubs (vf_crypto.go: a key is usable iff it is the harness's well-formed PEM key; EncryptOAEP returns an opaque ciphertext; rand.Read returns arbitrary bytes or fails). Bounds: scripts of <=9 packages, single edits. Known finding F-C08-extra-packages-tolerated. Outside: RSA key sizes, real PEM/PKCS#1 parsing, ENVCHANGE(PACKSIZE) during login (C10/C11).",
   ref="DESIGN.md §4 C08")
 
+CHECKS["C09"] = dict(
+  technique="symbolic execution of go/ssa with SMT (z3): two-run non-interference of the real Login over two symbolic passwords, with RSA-OAEP replaced by a stub whose ciphertext is independent of its plaintext and whose call log is asserted",
+  text="Bounded symbolic model checking of Channel.Login, LoginConfig.pack, writeString, rsaEncrypt, generateSymmetricKey and the whole send path down to the captured transport writes. Two logins with the same configuration, replies and stub outputs but two different symbolic passwords / remote-server passwords (lengths 0..3 quick, 0..5 thorough; arbitrary bytes) must write byte-for-byte identical data (skolem index over every write), reach the same outcome, leave the login record's password slot zero with length 0, and return errors that do not carry the secrets - also on the error exits reached when the reply stops after 4..8 packages or the key is unusable. The EncryptOAEP call log is asserted: one call per secret with plaintext = server nonce followed by the secret, empty label, the server's key; the session key is 32 bytes from one crypto/rand read, encrypted the same way. Control: in the plain flow the password is in its slot.",
+  note="Structure only: that OAEP ciphertext decrypts under the server key and is semantically secure is a property of crypto/rsa and is trusted. Trusted: symgo executor, z3, crypto stubs (vf_crypto.go). Capability masks are written in one (insertion) order. Bounds: passwords <=3/5 bytes, <=1 additional remote server. Outside: real RSA key sizes, passwords longer than the bound.",
+  ref="DESIGN.md §4 C09")
+
 NOT_APPLICABLE = {
 }
 
